@@ -4,6 +4,7 @@
 #[cfg(feature = "builder")]
 pub mod build;
 pub mod common;
+pub mod conv;
 pub mod elf;
 pub mod header;
 pub mod info;
@@ -172,6 +173,9 @@ fn dispatch(ctx: &mut Ctx, op: &str, call: &Value) -> Value {
     }
     #[cfg(feature = "builder")]
     if let Some(v) = build::dispatch(ctx, op, call) {
+        return v;
+    }
+    if let Some(v) = conv::dispatch(op, call) {
         return v;
     }
     out::unsupported()
